@@ -65,9 +65,9 @@ Theorem C10_cumulants_vg : forall a sigma nu theta, nu <> 0 -> forall t,
 Proof. intros. split; [apply vg_cumulant1_derive | apply vg_cumulant2_derive]; auto. Qed.
 
 (* non-vacuity: a concrete chain of conversions *)
-Example C10_nonvacuous : forall m1,
-  t_a (set_representation 9 m1 true CENTER (set_representation 9 m1 true ONEONE (mkTriplet 5 ZERO)))
-  = 5 + m1 (-1) 1 + (m1 (- 9) (-1) + m1 1 9).
+Example C10_nonvacuous : forall INF m1,
+  t_a (set_representation INF m1 true CENTER (set_representation INF m1 true ONEONE (mkTriplet 5 ZERO)))
+  = 5 + m1 (-1) 1 + (m1 (- INF) (-1) + m1 1 INF).
 Proof. intros. rewrite set_representation_a, set_representation_canonical. unfold canonical_of, to_canonical, of_canonical, I11, Tails. simpl. ring. Qed.
 
 Print Assumptions C10_conversions_path_independent.
